@@ -82,6 +82,12 @@ Fixpoint safe (self_ok : bool) (p : prog) (al : bool) : option bool :=
 Definition is_safe (self_ok : bool) (p : prog) : bool :=
   match safe self_ok p true with Some _ => true | None => false end.
 
+Fixpoint iter_run (k : nat) (f : buf -> buf) (x : buf) : buf :=
+  match k with
+  | O => x
+  | S k' => iter_run k' f (f x)
+  end.
+
 (* what the result holds, as a pure function of (estimator state, caller's data) - meaningful for
    programs that do not write estimator state *)
 Fixpoint run (p : prog) (eb cb : buf) : buf :=
@@ -92,7 +98,7 @@ Fixpoint run (p : prog) (eb cb : buf) : buf :=
   | PSelf _ => cb
   | PSeq a b => run b eb (run a eb cb)
   | PIf c a b => if c eb cb then run a eb cb else run b eb cb
-  | PLoop n body => Nat.iter (n eb cb) (run body eb) cb
+  | PLoop n body => iter_run (n eb cb) (run body eb) cb
   end.
 
 (* ---- the shapes the anchored transformers have (hand models of the source) ---- *)
@@ -151,6 +157,13 @@ Section Imputer.
   Definition imputer (m : imethod) (frame : bool) : prog :=
     PSeq PKeep (PSeq (PIf hasmv (PFresh h) PKeep) (PSeq (imputer_branch m frame) (PFresh h))).
 End Imputer.
+
+(* a history of apply-type calls on one estimator: (program, caller's buffer id) *)
+Fixpoint play (e : nat) (hs : list (prog * nat)) (st : store) : store :=
+  match hs with
+  | [] => st
+  | (q, c) :: t => play e t (fst (exec e q st c))
+  end.
 
 (* fit of a transformer / forecaster: validates, derives, stores on self *)
 Definition fit_shape (h g : buf -> buf -> buf) : prog := PSeq PKeep (PSeq (PFresh h) (PSelf g)).
@@ -378,12 +391,14 @@ Record site := {
   task_no_global_rng : bool;      (* the task never calls np.random.<draw>                        *)
   task_rng_from_seed : bool;      (* every generator used in the task is built in the task from a
                                      seed value (check_random_state(<param or self.random_state>)) *)
+  task_no_shared_write : bool;    (* the task assigns no self.<attr>, has no global / nonlocal    *)
   draws_before_dispatch : bool    (* enclosing draws on a generator precede the Parallel call     *)
 }.
 
 Definition site_ok (s : site) : bool :=
   gen_form s && kw_ok s && bound_whole s && task_resolved s && no_shared_rng_arg s &&
-  task_no_global_rng s && task_rng_from_seed s && draws_before_dispatch s.
+  task_no_global_rng s && task_rng_from_seed s && task_no_shared_write s &&
+  draws_before_dispatch s.
 
 (* what a call site denotes in the pool model: tasks that draw from a generator shared between
    them if an RNG object reaches the tasks, otherwise tasks whose seeds were drawn before
